@@ -137,7 +137,7 @@ theorem getKey_cons_ne {β : Type} (k k' : String) (v : β) (l : List (String ×
 theorem lookup_setKey_same {β : Type} (k : String) (v : β) (l : List (String × β)) :
     List.lookup k (setKey k v l) = some v := by
   induction l with
-  | nil => simp [setKey, List.lookup]
+  | nil => simp [setKey]
   | cons p r ih =>
     obtain ⟨k', v'⟩ := p
     simp only [setKey]
@@ -247,6 +247,11 @@ theorem okAnd_call_none (m : Method) (self : Store α) (args : List (V α))
 theorem natCast_lt_zero (k : Nat) : ((k : Int) < 0) ↔ False :=
   iff_false_intro (by omega)
 
+theorem natCast_succ_lt_zero (k : Nat) : ((k : Int) + 1 < 0) ↔ False :=
+  iff_false_intro (by omega)
+
+theorem toNat_natCast_succ (k : Nat) : ((k : Int) + 1).toNat = k + 1 := by omega
+
 omit [Val α] in
 theorem idx_ok (l : List α) (k : Nat) (h : k < l.length) : ∃ v, idx l k = .ok v := by
   simp [idx, List.getElem?_eq_getElem h]
@@ -282,7 +287,7 @@ macro "py_step" "[" ls:Lean.Parser.Tactic.simpLemma,* "]" : tactic =>
   `(tactic| simp [exec_skip, exec_seq, exec_setLoc, exec_setAttr, exec_append_none, exec_append_some,
       evalE, evalBin, evalUn, evalIdx, appendV, coerce, okAnd_bind, ok_bind, error_bind,
       getKey_nil, getKey_cons_same, getKey_cons_ne, getKey_setKey_same, getKey_setKey_ne, setKey,
-      pure, Except.pure, $ls,*])
+      pure, Except.pure, Except.map, natCast_lt_zero, natCast_succ_lt_zero, toNat_natCast_succ, $ls,*])
 
 /-! ### bounded once / historically -/
 
@@ -290,6 +295,42 @@ def classTB1 : TB1 → Option Class
   | .once => some Gen.OnceTimedOperation
   | .hist => some Gen.HistoricallyTimedOperation
   | _ => none
+
+theorem OnceTimed_construct (a b : Nat) :
+    okAnd (construct Gen.OnceTimedOperation [.int a, .int b])
+      (fun r => r = encBuf a b (List.replicate (b + 1) (ninf : α))) := by
+  unfold construct; rw [okAnd_map]
+  apply okAnd_call_none _ _ _ _ rfl rfl
+  py_step [Gen.OnceTimedOperation]
+  apply okAnd_for (τ := Unit)
+    (R := fun k s _ => s.self = encBuf a b (List.replicate k ninf))
+    (g := fun _ _ => .ok ()) (t := ()) (a := 0) (n := b + 1) (hb := (b : Int) + 1)
+  · py_step []
+  · py_step []
+  · omega
+  · simp [encBuf]
+  · intro k s _ _ hk hs
+    have hk' : k < b + 1 := by omega
+    py_step [hs, encBuf, dqAppend_replicate _ _ _ hk']
+  · intro s' _ hs _; simpa using hs
+
+theorem OnceTimed_reset (a b : Nat) (l : List α) (hl : l.length = b + 1) :
+    okAnd (reset Gen.OnceTimedOperation (encBuf a b l))
+      (fun r => r = encBuf a b (pushN l ninf (b + 1))) := by
+  unfold reset; rw [okAnd_map]
+  apply okAnd_call_none _ _ _ _ rfl rfl
+  py_step [Gen.OnceTimedOperation]
+  apply okAnd_for (τ := Unit)
+    (R := fun k s _ => s.self = encBuf a b (pushN l ninf k))
+    (g := fun _ _ => .ok ()) (t := ()) (a := 0) (n := b + 1) (hb := (b : Int) + 1)
+  · py_step [encBuf]
+  · py_step [encBuf]
+  · omega
+  · rfl
+  · intro k s _ _ hk hs
+    have hlen : (pushN l (ninf : α) k).length = b + 1 := by rw [pushN_length, hl]
+    py_step [hs, encBuf, dqAppend_full _ _ _ hlen, pushN_succ]
+  · intro s' _ hs _; simpa using hs
 
 theorem OnceTimed_update (a b : Nat) (hab : a ≤ b) (l : List α) (hl : l.length = b + 1) (x : α) :
     okAnd (update Gen.OnceTimedOperation (encBuf a b l) [.num x]) (fun r =>
@@ -312,58 +353,297 @@ theorem OnceTimed_update (a b : Nat) (hab : a ≤ b) (l : List α) (hl : l.lengt
     py_step [hr, hs]
     simpa [winFold, List.range_eq_range', encBuf] using hfold
 
+theorem HistoricallyTimed_construct (a b : Nat) :
+    okAnd (construct Gen.HistoricallyTimedOperation [.int a, .int b])
+      (fun r => r = encBuf a b (List.replicate (b + 1) (pinf : α))) := by
+  unfold construct; rw [okAnd_map]
+  apply okAnd_call_none _ _ _ _ rfl rfl
+  py_step [Gen.HistoricallyTimedOperation]
+  apply okAnd_for (τ := Unit)
+    (R := fun k s _ => s.self = encBuf a b (List.replicate k pinf))
+    (g := fun _ _ => .ok ()) (t := ()) (a := 0) (n := b + 1) (hb := (b : Int) + 1)
+  · py_step []
+  · py_step []
+  · omega
+  · simp [encBuf]
+  · intro k s _ _ hk hs
+    have hk' : k < b + 1 := by omega
+    py_step [hs, encBuf, dqAppend_replicate _ _ _ hk']
+  · intro s' _ hs _; simpa using hs
+
+theorem HistoricallyTimed_reset (a b : Nat) (l : List α) (hl : l.length = b + 1) :
+    okAnd (reset Gen.HistoricallyTimedOperation (encBuf a b l))
+      (fun r => r = encBuf a b (pushN l pinf (b + 1))) := by
+  unfold reset; rw [okAnd_map]
+  apply okAnd_call_none _ _ _ _ rfl rfl
+  py_step [Gen.HistoricallyTimedOperation]
+  apply okAnd_for (τ := Unit)
+    (R := fun k s _ => s.self = encBuf a b (pushN l pinf k))
+    (g := fun _ _ => .ok ()) (t := ()) (a := 0) (n := b + 1) (hb := (b : Int) + 1)
+  · py_step [encBuf]
+  · py_step [encBuf]
+  · omega
+  · rfl
+  · intro k s _ _ hk hs
+    have hlen : (pushN l (pinf : α) k).length = b + 1 := by rw [pushN_length, hl]
+    py_step [hs, encBuf, dqAppend_full _ _ _ hlen, pushN_succ]
+  · intro s' _ hs _; simpa using hs
+
+theorem HistoricallyTimed_update (a b : Nat) (hab : a ≤ b) (l : List α) (hl : l.length = b + 1) (x : α) :
+    okAnd (update Gen.HistoricallyTimedOperation (encBuf a b l) [.num x]) (fun r =>
+      ∃ o, winFold pmin pinf a b (dqPush l x) = .ok o ∧ r = (encBuf a b (dqPush l x), .num o)) := by
+  apply okAnd_call _ _ _ _ _ rfl rfl
+  py_step [Gen.HistoricallyTimedOperation, encBuf]
+  rw [dqAppend_full _ _ _ hl]
+  apply okAnd_for
+    (R := fun _ s acc => s.self = encBuf a b (dqPush l x) ∧ getKey "sample_return" s.loc = .ok (.num acc))
+    (g := fun acc i => do let x ← idx (dqPush l x) i; pure (pmin acc x))
+    (t := pinf) (a := 0) (n := b - a + 1) (hb := (b : Int) - a + 1)
+  · py_step [encBuf]
+  · py_step [encBuf]
+  · omega
+  · py_step [encBuf]
+  · intro k s t _ hk ⟨hs, hr⟩
+    obtain ⟨v, hv⟩ := idx_ok (dqPush l x) k (by rw [dqPush_length]; omega)
+    py_step [hs, hr, hv, encBuf]
+  · intro s' t' ⟨hs, hr⟩ hfold
+    py_step [hr, hs]
+    simpa [winFold, List.range_eq_range', encBuf] using hfold
+
 theorem gen_TB1_construct (op : TB1) (c : Class) (h : classTB1 op = some c) (a b : Nat) :
     ∃ l : List α, initTB1 op b = .buf l ∧ l.length = b + 1 ∧
       construct c [.int a, .int b] = .ok (encBuf a b l) := by
-  sorry
+  cases op <;> simp [classTB1] at h <;> subst h
+  · obtain ⟨r, hr, rfl⟩ := OnceTimed_construct (α := α) a b
+    exact ⟨_, rfl, by simp, hr⟩
+  · obtain ⟨r, hr, rfl⟩ := HistoricallyTimed_construct (α := α) a b
+    exact ⟨_, rfl, by simp, hr⟩
 
 theorem gen_TB1_update (op : TB1) (c : Class) (h : classTB1 op = some c) (a b : Nat) (hab : a ≤ b)
     (l : List α) (hl : l.length = b + 1) (x : α) :
     ∃ (l' : List α) (o : α), stepTB1 op a b (.buf l) x = .ok (.buf l', o) ∧ l'.length = b + 1 ∧
       update c (encBuf a b l) [.num x] = .ok (encBuf a b l', .num o) := by
-  sorry
+  cases op <;> simp [classTB1] at h <;> subst h
+  · obtain ⟨r, hr, o, ho, rfl⟩ := OnceTimed_update a b hab l hl x
+    exact ⟨_, o, by simp [stepTB1, ho, bind, Except.bind, pure, Except.pure], by simp [dqPush_length, hl], hr⟩
+  · obtain ⟨r, hr, o, ho, rfl⟩ := HistoricallyTimed_update a b hab l hl x
+    exact ⟨_, o, by simp [stepTB1, ho, bind, Except.bind, pure, Except.pure], by simp [dqPush_length, hl], hr⟩
 
 theorem gen_TB1_reset (op : TB1) (c : Class) (h : classTB1 op = some c) (a b : Nat)
     (l : List α) (hl : l.length = b + 1) :
     ∃ l' : List α, resetTB1 op b (.buf l) = .buf l' ∧ l'.length = b + 1 ∧
       reset c (encBuf a b l) = .ok (encBuf a b l') := by
-  sorry
+  cases op <;> simp [classTB1] at h <;> subst h
+  · obtain ⟨r, hr, rfl⟩ := OnceTimed_reset a b l hl
+    exact ⟨_, rfl, by simp [pushN_length, hl], hr⟩
+  · obtain ⟨r, hr, rfl⟩ := HistoricallyTimed_reset a b l hl
+    exact ⟨_, rfl, by simp [pushN_length, hl], hr⟩
 
 /-! ### bounded since / precedes -/
+
+theorem SinceTimed_construct (a b : Nat) :
+    okAnd (construct Gen.SinceTimedOperation [.int a, .int b])
+      (fun r => r = encBuf2 a b (List.replicate (b + 1) (pinf : α)) (List.replicate (b + 1) ninf)) := by
+  unfold construct; rw [okAnd_map]
+  apply okAnd_call_none _ _ _ _ rfl rfl
+  py_step [Gen.SinceTimedOperation]
+  apply okAnd_for (τ := Unit)
+    (R := fun k s _ => s.self = encBuf2 a b (List.replicate k pinf) (List.replicate k ninf))
+    (g := fun _ _ => .ok ()) (t := ()) (a := 0) (n := b + 1) (hb := (b : Int) + 1)
+  · py_step []
+  · py_step []
+  · omega
+  · simp [encBuf2]
+  · intro k s _ _ hk hs
+    have hk' : k < b + 1 := by omega
+    py_step [hs, encBuf2, dqAppend_replicate _ _ _ hk']
+  · intro s' _ hs _; simpa using hs
+
+theorem SinceTimed_reset (a b : Nat) (l r : List α) (hl : l.length = b + 1) (hr : r.length = b + 1) :
+    okAnd (reset Gen.SinceTimedOperation (encBuf2 a b l r))
+      (fun s => s = encBuf2 a b (pushN l pinf (b + 1)) (pushN r ninf (b + 1))) := by
+  unfold reset; rw [okAnd_map]
+  apply okAnd_call_none _ _ _ _ rfl rfl
+  py_step [Gen.SinceTimedOperation]
+  apply okAnd_for (τ := Unit)
+    (R := fun k s _ => s.self = encBuf2 a b (pushN l pinf k) (pushN r ninf k))
+    (g := fun _ _ => .ok ()) (t := ()) (a := 0) (n := b + 1) (hb := (b : Int) + 1)
+  · py_step [encBuf2]
+  · py_step [encBuf2]
+  · omega
+  · rfl
+  · intro k s _ _ hk hs
+    have hlen : (pushN l (pinf : α) k).length = b + 1 := by rw [pushN_length, hl]
+    have hlen' : (pushN r (ninf : α) k).length = b + 1 := by rw [pushN_length, hr]
+    py_step [hs, encBuf2, dqAppend_full _ _ _ hlen, dqAppend_full _ _ _ hlen', pushN_succ]
+  · intro s' _ hs _; simpa using hs
+
+theorem SinceTimed_update (a b : Nat) (hab : a ≤ b) (l r : List α)
+    (hl : l.length = b + 1) (hr : r.length = b + 1) (x y : α) :
+    okAnd (update Gen.SinceTimedOperation (encBuf2 a b l r) [.num x, .num y]) (fun res =>
+      ∃ o, sinceWin a b (dqPush l x) (dqPush r y) = .ok o ∧
+        res = (encBuf2 a b (dqPush l x) (dqPush r y), .num o)) := by
+  apply okAnd_call _ _ _ _ _ rfl rfl
+  py_step [Gen.SinceTimedOperation, encBuf2]
+  rw [dqAppend_full _ _ _ hl, dqAppend_full _ _ _ hr]
+  apply okAnd_for
+    (R := fun _ s out => s.self = encBuf2 a b (dqPush l x) (dqPush r y) ∧
+      getKey "sample_return" s.loc = .ok (.num out))
+    (g := fun out j => do
+      let cr ← idx (dqPush r y) j
+      let cl ← (List.range' (j + 1) (b - j)).foldlM
+                  (fun c k => do let x ← idx (dqPush l x) k; pure (pmin c x)) pinf
+      pure (pmax out (pmin cl cr)))
+    (t := ninf) (a := 0) (n := b - a + 1) (hb := (b : Int) - a + 1)
+  · py_step [encBuf2]
+  · py_step [encBuf2]
+  · omega
+  · py_step [encBuf2]
+  · intro k s out _ hk ⟨hs, hout⟩
+    obtain ⟨cr, hcr⟩ := idx_ok (dqPush r y) k (by rw [dqPush_length]; omega)
+    py_step [hs, hout, hcr, encBuf2]
+    apply okAnd_for
+      (R := fun _ s c => s.self = encBuf2 a b (dqPush l x) (dqPush r y) ∧
+        getKey "sample_return" s.loc = .ok (.num out) ∧
+        getKey "sample_right" s.loc = .ok (.num cr) ∧ getKey "sample_left" s.loc = .ok (.num c))
+      (g := fun c k => do let x ← idx (dqPush l x) k; pure (pmin c x))
+      (t := pinf) (a := k + 1) (n := b - k) (hb := (b : Int) + 1)
+    · py_step []
+    · py_step [hs, encBuf2]
+    · omega
+    · py_step [hs, hout, encBuf2]
+    · intro j s1 c hj1 hj2 ⟨hs1, hout1, hcr1, hc1⟩
+      obtain ⟨v, hv⟩ := idx_ok (dqPush l x) j (by rw [dqPush_length]; omega)
+      py_step [hs1, hout1, hcr1, hc1, hv, encBuf2]
+    · intro s1 c ⟨hs1, hout1, hcr1, hc1⟩ hfold
+      simp only [pure, Except.pure] at hfold
+      py_step [hs1, hout1, hcr1, hc1, hfold, encBuf2]
+  · intro s' o ⟨hs, hout⟩ hfold
+    py_step [hs, hout]
+    simpa [sinceWin, List.range_eq_range', encBuf2] using hfold
 
 theorem gen_SinceTimed_construct (a b : Nat) :
     ∃ l r : List α, initTB2 .since b = .buf2 l r ∧ l.length = b + 1 ∧ r.length = b + 1 ∧
       construct Gen.SinceTimedOperation [.int a, .int b] = .ok (encBuf2 a b l r) := by
-  sorry
+  obtain ⟨s, hs, rfl⟩ := SinceTimed_construct (α := α) a b
+  exact ⟨_, _, rfl, by simp, by simp, hs⟩
 
 theorem gen_SinceTimed_update (a b : Nat) (hab : a ≤ b) (l r : List α)
     (hl : l.length = b + 1) (hr : r.length = b + 1) (x y : α) :
     (∃ (l' r' : List α) (o : α), stepTB2 .since a b (.buf2 l r) x y = .ok (.buf2 l' r', o) ∧
       l'.length = b + 1 ∧ r'.length = b + 1 ∧
       update Gen.SinceTimedOperation (encBuf2 a b l r) [.num x, .num y] = .ok (encBuf2 a b l' r', .num o)) := by
-  sorry
+  obtain ⟨s, hs, o, ho, rfl⟩ := SinceTimed_update a b hab l r hl hr x y
+  exact ⟨_, _, o, by simp [stepTB2, ho, bind, Except.bind, pure, Except.pure],
+    by simp [dqPush_length, hl], by simp [dqPush_length, hr], hs⟩
 
 theorem gen_SinceTimed_reset (a b : Nat) (l r : List α) (hl : l.length = b + 1) (hr : r.length = b + 1) :
     ∃ l' r' : List α, resetTB2 .since b (.buf2 l r) = .buf2 l' r' ∧ l'.length = b + 1 ∧ r'.length = b + 1 ∧
       reset Gen.SinceTimedOperation (encBuf2 a b l r) = .ok (encBuf2 a b l' r') := by
-  sorry
+  obtain ⟨s, hs, rfl⟩ := SinceTimed_reset a b l r hl hr
+  exact ⟨_, _, rfl, by simp [pushN_length, hl], by simp [pushN_length, hr], hs⟩
+
+theorem Precedes_construct (a b : Nat) :
+    okAnd (construct Gen.PrecedesTimedOperation [.int a, .int b])
+      (fun r => r = encPrec a b (List.replicate (b + 1) (pinf : α)) (List.replicate (b + 1) ninf)) := by
+  unfold construct; rw [okAnd_map]
+  apply okAnd_call_none _ _ _ _ rfl rfl
+  py_step [Gen.PrecedesTimedOperation]
+  apply okAnd_for (τ := Unit)
+    (R := fun k s _ => s.self = encPrec a b (List.replicate k pinf) (List.replicate k ninf))
+    (g := fun _ _ => .ok ()) (t := ()) (a := 0) (n := b + 1) (hb := (b : Int) + 1)
+  · py_step []
+  · py_step []
+  · omega
+  · simp [encPrec]
+  · intro k s _ _ hk hs
+    have hk' : k < b + 1 := by omega
+    py_step [hs, encPrec, dqAppend_replicate _ _ _ hk']
+  · intro s' _ hs _; simpa using hs
+
+theorem Precedes_reset (a b : Nat) (l r : List α) (hl : l.length = b + 1) (hr : r.length = b + 1) :
+    okAnd (reset Gen.PrecedesTimedOperation (encPrec a b l r))
+      (fun s => s = encPrec a b (pushN l pinf (b + 1)) (pushN r ninf (b + 1))) := by
+  unfold reset; rw [okAnd_map]
+  apply okAnd_call_none _ _ _ _ rfl rfl
+  py_step [Gen.PrecedesTimedOperation]
+  apply okAnd_for (τ := Unit)
+    (R := fun k s _ => s.self = encPrec a b (pushN l pinf k) (pushN r ninf k))
+    (g := fun _ _ => .ok ()) (t := ()) (a := 0) (n := b + 1) (hb := (b : Int) + 1)
+  · py_step [encPrec]
+  · py_step [encPrec]
+  · omega
+  · rfl
+  · intro k s _ _ hk hs
+    have hlen : (pushN l (pinf : α) k).length = b + 1 := by rw [pushN_length, hl]
+    have hlen' : (pushN r (ninf : α) k).length = b + 1 := by rw [pushN_length, hr]
+    py_step [hs, encPrec, dqAppend_full _ _ _ hlen, dqAppend_full _ _ _ hlen', pushN_succ]
+  · intro s' _ hs _; simpa using hs
+
+theorem Precedes_update (a b : Nat) (hab : a ≤ b) (l r : List α)
+    (hl : l.length = b + 1) (hr : r.length = b + 1) (x y : α) :
+    okAnd (update Gen.PrecedesTimedOperation (encPrec a b l r) [.num x, .num y]) (fun res =>
+      ∃ o, precWin a b (dqPush l x) (dqPush r y) = .ok o ∧
+        res = (encPrec a b (dqPush l x) (dqPush r y), .num o)) := by
+  apply okAnd_call _ _ _ _ _ rfl rfl
+  py_step [Gen.PrecedesTimedOperation, encPrec]
+  rw [dqAppend_full _ _ _ hl, dqAppend_full _ _ _ hr]
+  apply okAnd_for
+    (R := fun _ s out => s.self = encPrec a b (dqPush l x) (dqPush r y) ∧
+      getKey "sample_return" s.loc = .ok (.num out))
+    (g := fun out i => do
+      let cr ← idx (dqPush r y) i
+      let cl ← (List.range' 0 i).foldlM
+                  (fun c j => do let x ← idx (dqPush l x) j; pure (pmin c x)) pinf
+      pure (pmax out (pmin cl cr)))
+    (t := ninf) (a := a) (n := b + 1 - a) (hb := (b : Int) + 1)
+  · py_step [encPrec]
+  · py_step [encPrec]
+  · omega
+  · py_step [encPrec]
+  · intro k s out hk1 hk ⟨hs, hout⟩
+    obtain ⟨cr, hcr⟩ := idx_ok (dqPush r y) k (by rw [dqPush_length]; omega)
+    py_step [hs, hout, hcr, encPrec]
+    apply okAnd_for
+      (R := fun _ s c => s.self = encPrec a b (dqPush l x) (dqPush r y) ∧
+        getKey "sample_return" s.loc = .ok (.num out) ∧
+        getKey "sample_right" s.loc = .ok (.num cr) ∧ getKey "sample_left" s.loc = .ok (.num c))
+      (g := fun c j => do let x ← idx (dqPush l x) j; pure (pmin c x))
+      (t := pinf) (a := 0) (n := k) (hb := (k : Int))
+    · py_step []
+    · py_step []
+    · omega
+    · py_step [hs, hout, encPrec]
+    · intro j s1 c hj1 hj2 ⟨hs1, hout1, hcr1, hc1⟩
+      obtain ⟨v, hv⟩ := idx_ok (dqPush l x) j (by rw [dqPush_length]; omega)
+      py_step [hs1, hout1, hcr1, hc1, hv, encPrec]
+    · intro s1 c ⟨hs1, hout1, hcr1, hc1⟩ hfold
+      simp only [pure, Except.pure] at hfold
+      py_step [hs1, hout1, hcr1, hc1, hfold, encPrec]
+  · intro s' o ⟨hs, hout⟩ hfold
+    py_step [hs, hout]
+    simpa [precWin, List.range_eq_range', encPrec] using hfold
 
 theorem gen_Precedes_construct (a b : Nat) :
     ∃ l r : List α, initTB2 .precedes b = .buf2 l r ∧ l.length = b + 1 ∧ r.length = b + 1 ∧
       construct Gen.PrecedesTimedOperation [.int a, .int b] = .ok (encPrec a b l r) := by
-  sorry
+  obtain ⟨s, hs, rfl⟩ := Precedes_construct (α := α) a b
+  exact ⟨_, _, rfl, by simp, by simp, hs⟩
 
 theorem gen_Precedes_update (a b : Nat) (hab : a ≤ b) (l r : List α)
     (hl : l.length = b + 1) (hr : r.length = b + 1) (x y : α) :
     (∃ (l' r' : List α) (o : α), stepTB2 .precedes a b (.buf2 l r) x y = .ok (.buf2 l' r', o) ∧
       l'.length = b + 1 ∧ r'.length = b + 1 ∧
       update Gen.PrecedesTimedOperation (encPrec a b l r) [.num x, .num y] = .ok (encPrec a b l' r', .num o)) := by
-  sorry
+  obtain ⟨s, hs, o, ho, rfl⟩ := Precedes_update a b hab l r hl hr x y
+  exact ⟨_, _, o, by simp [stepTB2, ho, bind, Except.bind, pure, Except.pure],
+    by simp [dqPush_length, hl], by simp [dqPush_length, hr], hs⟩
 
 theorem gen_Precedes_reset (a b : Nat) (l r : List α) (hl : l.length = b + 1) (hr : r.length = b + 1) :
     ∃ l' r' : List α, resetTB2 .precedes b (.buf2 l r) = .buf2 l' r' ∧ l'.length = b + 1 ∧ r'.length = b + 1 ∧
       reset Gen.PrecedesTimedOperation (encPrec a b l r) = .ok (encPrec a b l' r') := by
-  sorry
+  obtain ⟨s, hs, rfl⟩ := Precedes_reset a b l r hl hr
+  exact ⟨_, _, rfl, by simp [pushN_length, hl], by simp [pushN_length, hr], hs⟩
 
 /-! ### point-wise classes -/
 
